@@ -2457,7 +2457,9 @@ int string_case_compare (parse_node_t ** c1, parse_node_t ** c2) {
   p1 = (i1 ? PROG_STRING (i1) : 0);
   p2 = (i2 ? PROG_STRING (i2) : 0);
 
-  return (int)(p1 - p2);
+  if (p1 < p2)
+    return -1;
+  return p1 > p2;
 }
 
 void prepare_cases (parse_node_t * pn, size_t start) {
